@@ -85,9 +85,23 @@ def replace_pairs(func):
 def reader_map(func):
     """{escape char: produced text or 'HEX'} from the if-chain on `ch`."""
     out = {}
+    # roles, not names: the character variable is the one assigned from a
+    # subscript of the input string (ch = s[i]); the result variable is the
+    # one the function returns
+    params = [p for p in func.params if p not in ('self',)]
+    chars = {n.targets[0].id for n in walk_no_nested(func.node)
+             if isinstance(n, ast.Assign) and len(n.targets) == 1 and
+             isinstance(n.targets[0], ast.Name) and
+             isinstance(n.value, ast.Subscript) and
+             isinstance(n.value.value, ast.Name) and
+             n.value.value.id in params and
+             not isinstance(n.value.slice, ast.Slice)}
+    results = {norm(n.value) for n in walk_no_nested(func.node)
+               if isinstance(n, ast.Return) and
+               isinstance(n.value, ast.Name)}
     for n in walk_no_nested(func.node):
         if isinstance(n, ast.If) and isinstance(n.test, ast.Compare) and \
-                norm(n.test.left) == 'ch' and len(n.test.ops) == 1:
+                norm(n.test.left) in chars and len(n.test.ops) == 1:
             keys = []
             c = n.test.comparators[0]
             if isinstance(n.test.ops[0], ast.Eq) and const_str(c) is not None:
@@ -101,7 +115,8 @@ def reader_map(func):
                 pass
             val = None
             for x in n.body:
-                if isinstance(x, ast.AugAssign) and norm(x.target) == 'rv' \
+                if isinstance(x, ast.AugAssign) and \
+                        norm(x.target) in results \
                         and const_str(x.value) is not None:
                     val = const_str(x.value)
             for k in keys:
@@ -363,9 +378,35 @@ def run(repo, rep, tier):
         doc = ast.get_docstring(f.node, clean=False) or ''
         return set(doc.split(':', 1)[1].replace('|', ' ').split())
     qd = repo.cls(OBJ, 'CIMQualifierDeclaration').methods.get('tomof')
+    # the flavor list is identified by its role: the list that is joined
+    # right after the literal 'Flavor(' is written
+    joined = set()
+
+    def _appended(st):
+        if isinstance(st, ast.Expr) and isinstance(st.value, ast.Call) and \
+                isinstance(st.value.func, ast.Attribute) and \
+                st.value.func.attr == 'append' and st.value.args:
+            return st.value.args[0]
+        return None
+    for blk in ast.walk(qd.node):
+        body = getattr(blk, 'body', None)
+        if not isinstance(body, list):
+            continue
+        for a, b in zip(body, body[1:]):
+            x, y = _appended(a), _appended(b)
+            if x is not None and (const_str(x) or '').startswith('Flavor(') \
+                    and isinstance(y, ast.Call) and \
+                    isinstance(y.func, ast.Attribute) and \
+                    y.func.attr == 'join' and y.args and \
+                    isinstance(y.args[0], ast.Name):
+                joined.add(y.args[0].id)
     flavors = [const_str(c.args[0]) for c in walk_no_nested(qd.node)
                if isinstance(c, ast.Call) and
-               dotted(c.func) == 'mof_flavors.append' and c.args]
+               isinstance(c.func, ast.Attribute) and
+               c.func.attr == 'append' and
+               isinstance(c.func.value, ast.Name) and
+               c.func.value.id in joined and c.args and
+               const_str(c.args[0]) is not None]
     if len(flavors) < 5:
         raise AnalysisError('flavor keywords of tomof() not found')
     falts = alternatives('p_flavor')
